@@ -46,6 +46,19 @@ CHECKS = {
         title="RCU disposes every retired object exactly once",
         technique="deterministic simulation with per-object disposer counting through singleton destruction; a run that can never finish (lost buffer entry) counts as a violation",
     ),
+    "C06": dict(
+        subjects=[(n, 1500, 40000) for n in [
+            "queue.MSQueue_HP", "queue.MSQueue_DHP", "queue.MSQueue_HP_ic_seqcst_stat", "queue.MoirQueue_HP", "queue.MoirQueue_DHP",
+            "queue.BasketQueue_HP", "queue.BasketQueue_DHP", "queue.OptimisticQueue_HP", "queue.OptimisticQueue_DHP",
+            "queue.iMSQueue_HP", "queue.iMSQueue_DHP", "queue.iMoirQueue_HP", "queue.iBasketQueue_HP", "queue.iBasketQueue_DHP",
+            "queue.iOptimisticQueue_HP", "queue.iOptimisticQueue_DHP", "queue.RWQueue_spin", "queue.RWQueue_mutex_ic",
+            "queue.FCQueue_backoff", "queue.FCQueue_list_elim", "queue.FCQueue_wait_empty", "queue.FCQueue_elim_smsc", "queue.FCQueue_smmc",
+            "queue.FCQueue_elim_mmmc", "queue.iFCQueue_list", "queue.iFCQueue_slist_elim"]],
+        classes=["not-linearizable", "double-dispose", "never-disposed"],
+        expect_probes=["F10_eager_reclaim", "stat_bad_tail", "fc_combining_passes", "fc_collided", "intrusive_nodes"],
+        title="Unbounded MPMC queues are linearizable FIFO queues",
+        technique="deterministic simulation (seeded schedules; weak-CAS, stall, thread-churn, early-timeout, spurious-wake-up, eager-reclamation faults) + Wing-Gong linearizability check of each recorded history against a sequential FIFO model",
+    ),
 }
 
 NOT_APPLICABLE = [
